@@ -198,6 +198,7 @@ class C16Objects:
         master = rbip32.RefHDNode.from_seed(rhashes.sha256(b'c16 wallet %d ' % i + tag))
         wt = ch.pick('wt', ['segwit', 'p2sh-segwit', 'legacy'])
         purpose = {'legacy': 44, 'p2sh-segwit': 49, 'segwit': 84}[wt]
+        from_what = ch.weighted('wallet_from', [('master', 5), ('account_private', 3)])
         self.reg.add_node(master, 'w.m')
         acc = 'm'
         for part in ("%d'" % purpose, "%d'" % self.coin, "0'"):
@@ -209,7 +210,12 @@ class C16Objects:
             for idx in range(6):
                 self.reg.add_node(accn.derive('%d/%d' % (chg, idx)), 'w.%s/%d/%d' % (acc, chg, idx))
         db = os.path.join(self.w.scratch, 'w.sqlite')
-        w = BW.Wallet.create('c16w', keys=self.xprv(master), network=self.network, witness_type=wt, db_uri=db,
+        keyarg = self.xprv(master)
+        if from_what == 'account_private':
+            # a wallet opened on the account-level *private* extended key (depth 3)
+            fam = {'legacy': 'legacy', 'p2sh-segwit': 'p2sh_p2wpkh', 'segwit': 'p2wpkh'}[wt]
+            keyarg = accn.ser_private(rcodec.NETWORKS[self.network]['xkeys'][fam][1])
+        w = BW.Wallet.create('c16w', keys=keyarg, network=self.network, witness_type=wt, db_uri=db,
                              db_cache_uri=os.path.join(self.w.scratch, 'cache.sqlite'))
         self.wallet = {'w': w, 'wt': wt, 'db': db, 'master': master, 'acc': acc}
         self.subjects.append({'kind': 'Wallet', 'obj': w, 'label': 'wallet', 'wt': wt})
